@@ -1104,8 +1104,57 @@ def _last_field(place):
     return None
 
 
+def _ref_target(fn, n, depth=0):
+    """the place a reference-typed local points to: follows copies, moves and closure-environment slots back to the
+    `&mut place` / `&place` statement (None when that is not a single statement)"""
+    for _ in range(10):
+        ds = fn.whole_defs(n)
+        if len(ds) != 1 or ds[0][0] != "stmt":
+            return None
+        rv = ds[0][1]
+        if rv["k"] == "ref":
+            pl = rv["place"]
+            if len(pl["proj"]) == 1 and pl["proj"][0]["k"] == "deref":
+                n = pl["local"]                      # a reborrow `&mut *r`
+                continue
+            return pl
+        if rv["k"] != "use":
+            return None
+        src = op_place(rv["op"])
+        if src is None:
+            return None
+        proj = [e for e in src["proj"] if e["k"] != "deref"]
+        if not proj:
+            n = src["local"]
+            continue
+        if len(proj) == 1 and proj[0]["k"] == "field" and str(proj[0].get("adt", "")).startswith("closure:"):
+            # a captured reference: slot idx of the closure aggregate this environment was built as
+            env = src["local"]
+            for _ in range(6):
+                de = fn.whole_defs(env)
+                if len(de) != 1 or de[0][0] != "stmt":
+                    return None
+                rve = de[0][1]
+                if rve["k"] == "use" and op_place(rve["op"]) is not None and not op_place(rve["op"])["proj"]:
+                    env = op_place(rve["op"])["local"]
+                    continue
+                if rve["k"] == "aggregate" and rve["kind"].get("agg") == "closure" and proj[0]["idx"] < len(rve["ops"]):
+                    cp = op_place(rve["ops"][proj[0]["idx"]])
+                    if cp is None or cp["proj"]:
+                        return None
+                    n = cp["local"]
+                    break
+                return None
+            else:
+                return None
+            continue
+        return None
+    return None
+
+
 def field_assignments(fn, adt, field):
-    """statements / call destinations that assign the *whole* field `adt.field` (last projection)."""
+    """statements / call destinations that assign the *whole* field `adt.field` (last projection), directly or through
+    a reference to it (`let r = &mut self.f; *r = v`, also when r was captured by an inlined closure)."""
     out = []
     for n, ds in fn.defs().items():
         for kind, payload, bi, si, place in ds:
@@ -1114,6 +1163,11 @@ def field_assignments(fn, adt, field):
             lf = place["proj"][-1] if place["proj"] else None
             if lf and lf["k"] == "field" and lf["name"] == field and (adt is None or lf["adt"] == adt):
                 out.append((bi, si, kind, payload))
+            elif lf and lf["k"] == "deref" and len(place["proj"]) == 1:
+                tgt = _ref_target(fn, place["local"])
+                tl = tgt["proj"][-1] if tgt is not None and tgt["proj"] else None
+                if tl and tl["k"] == "field" and tl["name"] == field and (adt is None or tl["adt"] == adt):
+                    out.append((bi, si, kind, payload))
     return out
 
 
